@@ -18,6 +18,7 @@ package variables
 //@ def qesOf(res, raw) = len(res) == len(raw) && qesUpto(res, raw, len(raw))
 
 //@ func DeserializeMerkleCap(merkleCapRaw []string) (res FriMerkleCap)
+//@   locals n merkleCap i capBigInt
 //@   props C19
 //@   plain
 //@   flag bigint-boxing
@@ -25,6 +26,7 @@ package variables
 //@   loop 0 invariant 0 <= i && i <= n && n == len(merkleCapRaw) && len(merkleCap) == n && hashesUpto(merkleCap, merkleCapRaw, i)
 
 //@ func StringArrayToHashBN254Array(rawHashes []string) (res []poseidon.BN254HashOut)
+//@   locals hashes i hashBigInt hashVar
 //@   props C19
 //@   plain
 //@   flag bigint-boxing
@@ -39,6 +41,7 @@ package variables
 //@   ensures qesOf(res.PartialProducts, openingSetRaw.PartialProducts) && qesOf(res.QuotientPolys, openingSetRaw.QuotientPolys)
 
 //@ func DeserializeVerifierOnlyCircuitData(raw types.VerifierOnlyCircuitDataRaw) (res VerifierOnlyCircuitData)
+//@   locals verifierOnlyCircuitData circuitDigestBigInt circuitDigestVar
 //@   props C19
 //@   plain
 //@   flag bigint-boxing
@@ -56,6 +59,7 @@ package variables
 //@        len(r.QueryRoundProofs) == len(w.QueryRoundProofs) && roundsUpto(r.QueryRoundProofs, w.QueryRoundProofs, len(w.QueryRoundProofs))
 
 //@ func DeserializeFriProof(openingProofRaw struct{CommitPhaseMerkleCaps [][]string; QueryRoundProofs []struct{InitialTreesProof struct{EvalsProofs []types.EvalProofRaw}; Steps []struct{Evals [][]uint64; MerkleProof struct{Siblings []string}}}; FinalPoly struct{Coeffs [][]uint64}; PowWitness uint64}) (res FriProof)
+//@   locals openingProof i numQueryRoundProofs i numEvalProofs j numSteps j
 //@   props C19
 //@   plain
 //@   ensures friProofOf(res, openingProofRaw)
@@ -74,6 +78,7 @@ package variables
 //@        stepsUpto(openingProof.QueryRoundProofs[i].Steps, openingProofRaw.QueryRoundProofs[i].Steps, j)
 
 //@ func DeserializeProofWithPublicInputs(raw types.ProofWithPublicInputsRaw) (res ProofWithPublicInputs, pis []uint64)
+//@   locals proofWithPis
 //@   props C19
 //@   plain
 //@   ensures hashesOf(res.Proof.WiresCap, raw.Proof.WiresCap) && hashesOf(res.Proof.PlonkZsPartialProductsCap, raw.Proof.PlonkZsPartialProductsCap) && hashesOf(res.Proof.QuotientPolysCap, raw.Proof.QuotientPolysCap)
